@@ -94,11 +94,14 @@ reg("C10",
     rule="as C05; every listing is compared item by item with the lookups of all keys issued just before it")
 
 reg("C20",
-    gen=lambda seed, tier: (P.gen_roundtrip_programs(G.Rng(seed + 20), N(tier, 60, 400)) +
+    gen=lambda seed, tier: (P.gen_hostile_state_programs(G.Rng(seed + 23), N(tier, 18, 36)) +
+                            P.gen_roundtrip_programs(G.Rng(seed + 20), N(tier, 60, 400)) +
                             P.gen_history_programs(G.Rng(seed + 21), N(tier, 30, 200), full=True) +
                             P.gen_damage_programs(G.Rng(seed + 22), N(tier, 30, 200))),
     monitors=[],
-    rule="every program of the other streams, judged only on panic / hang")
+    rule="every program of the other streams plus hostile on-disk states (foreign checksummed records with 9 kinds of "
+         "odd integrity text, directories / files where the other is expected), judged on panic / hang and compared with "
+         "the model (which has the same panics as explicit results)")
 
 reg("C08",
     gen=lambda seed, tier: P.gen_commit_programs(G.Rng(seed + 8), N(tier, 120, 1500), big=N(tier, 0.05, 0.1)),
@@ -248,7 +251,7 @@ def gen_big_record_programs(seed, tier):
     """Index records of growing size (raw metadata up to several MiB): one append = one write(2)?"""
     r = G.Rng(seed + 72)
     progs = []
-    for n in ([100, 70000] if tier == "quick" else [100, 70000, 600000, 1100000]):
+    for n in ([100, 70000, 600000] if tier == "quick" else [100, 70000, 600000, 1100000]):
         raw = r.randbytes(n)
         for fl in "sa":
             ops = [f"index_insert {fl} c0 x6b sri={G.hx(P.L.sri_of('sha256', b'x').encode())} time=1 size=1 meta=- raw={G.hx(raw)}"]
@@ -259,3 +262,26 @@ def gen_big_record_programs(seed, tier):
 REGISTRY["C15"]["extra"] = lambda seed, tier, flavours: LG.leg_skeleton(
     P.gen_confine_programs(G.Rng(seed + 151), N(tier, 6, 40)), flavours[0])
 REGISTRY["C15"]["rule"] += "; plus the strace leg: every mutating system call of every op (hostile keys) is compared with the model's call and any path outside the scratch cache directory is reported"
+
+
+def gen_c12(seed, tier):
+    r = G.Rng(seed + 12)
+    progs = (P.gen_damage_programs(r, N(tier, 8, 60)) + P.gen_commit_programs(r, N(tier, 10, 100)) +
+             P.gen_metadata_programs(r, N(tier, 10, 100)) + P.gen_history_programs(r, N(tier, 8, 60), full=True) +
+             P.gen_bucket_programs(r, N(tier, 10, 100)))
+    # sync-only entry points have no async twin: drop them from the comparison programs
+    for p in progs:
+        p.ops = [o for o in p.ops if o.split(" ")[0] not in P.SYNC_ONLY and not o.startswith("dump")]
+    return progs
+
+
+reg("C12",
+    gen=lambda seed, tier: P.gen_history_programs(G.Rng(seed + 120), N(tier, 20, 200), full=True),
+    monitors=[P.mon_history],
+    all_flavours=True,
+    extra=lambda seed, tier, flavours: LG.leg_flavours(gen_c12(seed, tier), flavours),
+    nontrivial=lambda rr: True,
+    rule="each program (damaged content + every retrieval, commits with all declaration combinations, metadata fidelity, "
+         "histories with all removals, damaged buckets) is executed in four forms - all sync, all async, sync-then-async, "
+         "async-then-sync - on the async-std and the tokio binary (8 executions); the canonical result streams (default "
+         "times masked) must be equal step by step; plus the model correspondence of histories on both binaries")
